@@ -70,7 +70,7 @@ def single_tables(base, L, leaf_variant=False):
 
 
 def gen_tables(tier):
-    Lmax = 9 if tier == "thorough" else 7
+    Lmax = 9 if tier == "thorough" else 8
     singles = {}
     for base in BASES:
         for L in range(2, min(Lmax, len(BASES[base])) + 1):
@@ -247,5 +247,5 @@ def replay_case(kind, case):
 
 
 def coverage(m, tier, seed):
-    return {"bounds": {"chain_max": 9 if tier == "thorough" else 7, "two_basetypes_chain_max": 5 if tier == "thorough" else 4},
+    return {"bounds": {"chain_max": 9 if tier == "thorough" else 8, "two_basetypes_chain_max": 5 if tier == "thorough" else 4},
             "exhaustive": True}
